@@ -7,6 +7,7 @@ import (
 	"fmt"
 	"sync"
 	"sync/atomic"
+	"time"
 
 	"github.com/hashicorp/eventlogger"
 	"github.com/hashicorp/go-multierror"
@@ -40,19 +41,20 @@ type Lin struct {
 
 // Call is one recorded node invocation.
 type Call struct {
-	Node       *N
-	SeqEnter   int64
-	SeqExit    int64
-	In         *eventlogger.Event
-	InLineage  string
-	SendID     int
-	InType     eventlogger.EventType
-	InPayload  interface{}
-	InCreated  bool // CreatedAt non-zero
-	InFmtLen   int
-	Out        *eventlogger.Event
-	OutLineage string
-	Err        error
+	Node        *N
+	SeqEnter    int64
+	SeqExit     int64
+	In          *eventlogger.Event
+	InLineage   string
+	SendID      int
+	InType      eventlogger.EventType
+	InPayload   interface{}
+	InCreated   bool // CreatedAt non-zero
+	InCreatedAt time.Time
+	InFmtLen    int
+	Out         *eventlogger.Event
+	OutLineage  string
+	Err         error
 }
 
 // World is the shared recorder of one case.
@@ -186,6 +188,7 @@ func (n *N) Process(ctx context.Context, e *eventlogger.Event) (*eventlogger.Eve
 		c.InType = e.Type
 		c.InPayload = e.Payload
 		c.InCreated = !e.CreatedAt.IsZero()
+		c.InCreatedAt = e.CreatedAt
 		c.InFmtLen = len(e.Formatted)
 		lin, _ = e.Payload.(*Lin)
 	}
